@@ -253,8 +253,35 @@ func textCase(in textIn, tags ...string) caseRec {
 			if err != nil || panicked {
 				packed = nil
 			}
-			return caseRec{Input: in, Output: map[string]any{"packed": string(packed)}, Tags: append(tags, "packbytes"),
-				Coq: fmt.Sprintf("TPackBytes %s %s %s", tcoq, coqBool(sigs == nil), coqHex(packed))}
+			// UnpackDecode of those bytes
+			ud := resOut{Kind: "err", Err: "EOther"}
+			udc := ""
+			if packed != nil {
+				var d2 ocr2types.ConfigDigest
+				var s2 uint64
+				var r2 llo.Report
+				var sg2 []ocr2types.AttributedOnchainSignature
+				err, panicked, pv := protect(func() error {
+					var e error
+					d2, s2, r2, sg2, e = llo.JSONReportCodec{}.UnpackDecode(packed)
+					return e
+				})
+				switch {
+				case panicked:
+					ud = resOut{Kind: "panic", Text: fmt.Sprint(pv)}
+				case err != nil:
+					ud = resOut{Kind: "err", Err: "EOther", Text: err.Error()}
+				default:
+					if fr, ok := coqFReport(r2); ok {
+						ud = resOut{Kind: "ok"}
+						udc = fmt.Sprintf("(%s, %s, %s, %s)", coqHex(d2[:]), coqZu(s2), fr, coqSigs(sg2))
+					} else {
+						ud = resOut{Kind: "panic", Text: "nil nested value"}
+					}
+				}
+			}
+			return caseRec{Input: in, Output: map[string]any{"packed": string(packed), "unpack_decode": ud}, Tags: append(tags, "packbytes"),
+				Coq: fmt.Sprintf("TPackBytes %s %s %s %s", tcoq, coqBool(sigs == nil), coqHex(packed), ud.coq(udc))}
 		}
 		var packed []byte
 		pr, pc := resOut{Kind: "ok"}, ""
